@@ -695,3 +695,158 @@ def read_bitpacked_closure(w, s, timeout, max_states=400, zero_groups=False):
         post(res, f"read_bitpacked{tag}.frame", list(q.pc) + [z3.Or(idx < oloc0, idx >= oloc0 + s * m_)],
              z3.Select(m1, idx) == z3.Select(omem0, idx), timeout, "nothing outside the emitted items is written", mf)
     return res
+
+
+# =================================================================================================
+# delta_read_bitpacked: control-state closure (left, right are int8_t; 64-bit accumulator)
+# =================================================================================================
+def spec_bitpacked_value64(mem, in0, w, j, out_bits):
+    """bits [w*j, w*j + w) of the LSB-first stream starting at mem[in0], truncated to out_bits (w <= 64: 9 bytes suffice)"""
+    bit0 = w * j
+    byte0 = bit0 / 8
+    sh = z3.Int2BV(bit0 % 8, 72)
+    win = z3.Concat(*[z3.Select(mem, in0 + byte0 + k) for k in reversed(range(9))])
+    v = z3.LShR(win, sh) & z3.BitVecVal((1 << w) - 1, 72)
+    return z3.Extract(out_bits - 1, 0, v)
+
+
+def delta_bitpacked_closure(w, longval, timeout, max_states=600):
+    res = KResults()
+    size = 8 if longval else 4
+    tag = f"[w={w},longval={longval}]"
+    state = {"seen": {}}
+    SPEC = z3.Function(f"DSPECVAL_w{w}_l{longval}", z3.IntSort(), z3.BitVecSort(8 * size))
+
+    def mk_inv(p, l, r, c, e, data, count0, cap, in0, out0, fmem, omem0):
+        base = in0 + c - l // 8
+        win = z3.Concat(*[z3.Select(fmem, base + k) for k in reversed(range(8))])
+        lia = [c >= 0, 0 <= e, e <= count0, 8 * c - l + r == w * e,
+               cy.loc(p, "f") == in0 + c, cy.loc(p, "o") == out0 + size * z3.If(e < cap, e, cap),
+               8 * c < w * z3.If(e + 1 < count0, e + 1, count0) + 8]
+        if 0 <= l <= 64 and 0 <= r <= l:
+            bvs = [data == (win & z3.BitVecVal((1 << l) - 1, 64))]
+        else:
+            bvs = [z3.BoolVal(False)]          # more than 64 valid bits cannot be held / control variables out of range
+        j, idx = z3.Int("jq"), z3.Int("idxq")
+        me = z3.If(e < cap, e, cap)
+        m = p.mem["o"]
+        memf = [z3.ForAll([j], z3.Implies(z3.And(0 <= j, j < me),
+                                          z3.And(*[z3.Select(m, out0 + size * j + b) == z3.Extract(8 * b + 7, 8 * b, SPEC(j)) for b in range(size)]))),
+                z3.ForAll([idx], z3.Implies(z3.Or(idx < out0, idx >= out0 + size * me), z3.Select(m, idx) == z3.Select(omem0, idx)))]
+        return lia, bvs, memf
+
+    def hook(eng, st, p):
+        g = p.ghost
+        in0, out0, fmem, omem0, count0, cap = g["in0"], g["out0"], g["fmem0"], g["omem0"], g["count0"], g["cap"]
+        l0, r0 = _cval(p.env["left"]), _cval(p.env["right"])
+        lia, bvs, memf = mk_inv(p, l0, r0, z3.IntVal(0), z3.IntVal(0), p.env["data"].bv, count0, cap, in0, out0, fmem, omem0)
+        eng.oblige(p, f"delta_read_bitpacked.closure.invariant_on_entry(l={l0},r={r0})", "inv", z3.And(*lia, *bvs, *memf), st)
+        todo, exits = [(l0, r0)], []
+        while todo and len(state["seen"]) < max_states:
+            l, r = todo.pop()
+            if (l, r) in state["seen"]:
+                continue
+            state["seen"][(l, r)] = True
+            q = p.fork()
+            k = next(eng.counter)
+            c, e = z3.Int(f"c!{k}"), z3.Int(f"e!{k}")
+            data = z3.BitVec(f"data!{k}", 64)
+            q.mem["o"] = z3.Const(f"omem!{k}", cy.MemSort)
+            cnt = z3.Int(f"cnt!{k}")
+            q.heap["f"] = dict(q.heap["f"])
+            q.heap["o"] = dict(q.heap["o"])
+            floc, oloc = z3.Int(f"floc!{k}"), z3.Int(f"oloc!{k}")
+            q.heap["f"]["loc"] = CI(z3.Int2BV(floc, 32), 32, False, floc, (0, 2 ** 32 - 1))
+            q.heap["o"]["loc"] = CI(z3.Int2BV(oloc, 32), 32, False, oloc, (0, 2 ** 32 - 1))
+            q.pc += [floc >= 0, floc < 2 ** 32, oloc >= 0, oloc <= cy.nbytes(q, "o")]
+            lia, bvs, memf = mk_inv(q, l, r, c, e, data, count0, cap, in0, out0, fmem, omem0)
+            q.pc += lia + bvs + memf + [cnt == count0 - e, cnt >= 0]
+            q.env = dict(q.env)
+            q.env["left"] = CI(z3.BitVecVal(l, 8), 8, True, z3.IntVal(l), (l, l))
+            q.env["right"] = CI(z3.BitVecVal(r, 8), 8, True, z3.IntVal(r), (r, r))
+            q.env["data"] = CI(data, 64, False)
+            q.env["count"] = CI(z3.Int2BV(cnt, 64), 64, False, cnt, (0, 2 ** 64 - 1))
+            ex = q.fork(cnt == 0)
+            if eng.feasible(ex):
+                exits.append(ex)
+            body = q.fork(cnt != 0)
+            if not eng.feasible(body):
+                continue
+            n_before = len(eng.oblig)
+            outs = eng.block(st.body, [body])
+            for ob in eng.oblig[n_before:]:
+                ob.name = ob.name + f"@state(l={l},r={r})"
+            for b in outs:
+                if b.ctl is not None:
+                    raise Unsupported("abrupt exit inside the delta_read_bitpacked loop body")
+                l2, r2 = _cval(b.env["left"]), _cval(b.env["right"])
+                if l2 is None or r2 is None:
+                    # a write_long/write_int that may or may not fit forks the path but the control state is the same
+                    raise Unsupported("control variables not concrete after one loop iteration")
+                c2 = z3.simplify(cy.loc(b, "f") - in0)
+                cnt2 = eng.ci_int(b.env["count"])
+                e2 = z3.If(cnt2 == cnt, e, e + 1)
+                nm = f"delta_read_bitpacked.closure.state(l={l},r={r})->(l={l2},r={r2})"
+                lia2, bvs2, memf2 = mk_inv(b, l2, r2, c2, e2, b.env["data"].bv, count0, cap, in0, out0, fmem, omem0)
+                eng.oblige(b, nm + ".accumulator_holds_stream_bits", "inv", z3.And(*bvs2), st,
+                           note="data == the low `left` bits of the stream window; int8 control variables did not wrap")
+                eng.oblige(b, nm + ".cursor_algebra", "inv", z3.And(*lia2), st)
+                emitted = not z3.eq(z3.simplify(cnt2), z3.simplify(cnt))
+                if emitted:
+                    idx_lemma = z3.And((w * e) / 8 == c - l // 8 + r // 8, (w * e) % 8 == r % 8)
+                    eng.oblige(b, nm + ".spec_index_arithmetic", "inv", idx_lemma, st)
+                    b.pc.append(idx_lemma)
+                    oloc0 = q.heap["o"]["loc"].iv
+                    stored = z3.Concat(*[z3.Select(b.mem["o"], oloc0 + k2) for k2 in reversed(range(size))])
+                    fits = oloc0 + size <= cy.nbytes(q, "o")
+                    lemma = z3.Implies(fits, stored == spec_bitpacked_value64(fmem, in0 + 0, w, e, 8 * size))
+                    eng.oblige(b, nm + ".emitted_value_is_spec", "post", lemma, st,
+                               note="the stored value == bits [w*e, w*e+w) of the stream (LSB first), truncated to the item size")
+                    b.pc.append(lemma)
+                    b.pc.append(SPEC(e) == spec_bitpacked_value64(fmem, in0 + 0, w, e, 8 * size))
+                eng.oblige(b, nm + ".output_prefix_is_spec_and_frame", "inv", z3.And(*memf2), st)
+                if not z3.is_false(z3.simplify(z3.And(*bvs2))):
+                    todo.append((l2, r2))
+        if todo:
+            raise Unsupported("control-state closure did not close within the state budget")
+        return exits
+    loops = {("delta_read_bitpacked", 0): LoopSpec("hook", inv=hook)}
+    eng = cy.engine(loops=loops)
+    p = Path()
+    f, o = cy.new_io(p, "f"), cy.new_io(p, "o")
+    count = cy.arg("count", "uint64_t", p)
+    floc0, fn, oloc0, on = cy.loc(p, "f"), cy.nbytes(p, "f"), cy.loc(p, "o"), cy.nbytes(p, "o")
+    fmem0, omem0 = p.mem["f"], p.mem["o"]
+    cap = (on - oloc0) / size
+    # requires: 1 <= bitwidth <= 64 (the caller skips width 0), count < 2**32, the packed values are present in the input
+    p.pc += [count.iv >= 1, count.iv < 2 ** 32, 8 * (fn - floc0) >= w * count.iv, fn < 2 ** 31]
+    p.ghost.update(in0=floc0, out0=oloc0, fmem0=fmem0, omem0=omem0, count0=count.iv, cap=cap)
+    mf = lambda m: {"bitwidth": w, "longval": longval, "count": mv(m, count.iv), "f_loc": mv(m, floc0), "f_nbytes": mv(m, fn),
+                    "o_loc": mv(m, oloc0), "o_nbytes": mv(m, on)}
+    try:
+        outs = eng.run("delta_read_bitpacked", p, [f, PyI(w, lit=True), o, count, PyI(longval, lit=True)])
+    except Unsupported as ex:
+        res.take_engine(eng, f"delta_read_bitpacked{tag}.", timeout, mf)
+        res.addk(f"delta_read_bitpacked{tag}.closure_completed", "functional", UNKNOWN, None, 0.0, "engine", str(ex))
+        return res
+    res.take_engine(eng, f"delta_read_bitpacked{tag}.", timeout, mf)
+    res.addk(f"delta_read_bitpacked{tag}.closure_completed", "functional", PROVED, None, 0.0, "closure",
+             f"{len(state['seen'])} control states (left, right) reachable; closed under the real loop body")
+    j, idx = z3.Int("j_sk"), z3.Int("idx_sk")
+    m_ = z3.If(count.iv < cap, count.iv, cap)
+    for q in outs:
+        if q.ctl[0] != "ret":
+            continue
+        m1 = q.mem["o"]
+        post(res, f"delta_read_bitpacked{tag}.output_cursor", q.pc, cy.loc(q, "o") == oloc0 + size * m_, timeout,
+             "o.loc advanced by min(count, capacity) items", mf)
+        got = z3.Concat(*[z3.Select(m1, oloc0 + size * j + b) for b in reversed(range(size))])
+        post(res, f"delta_read_bitpacked{tag}.values", list(q.pc) + [0 <= j, j < m_, SPEC(j) == spec_bitpacked_value64(fmem0, floc0 + 0, w, j, 8 * size)],
+             got == spec_bitpacked_value64(fmem0, floc0 + 0, w, j, 8 * size), timeout,
+             "output item j == stream bits [w*j, w*j + w) (LSB first, truncated to the item size) for every j < min(count, capacity)", mf)
+        post(res, f"delta_read_bitpacked{tag}.frame", list(q.pc) + [z3.Or(idx < oloc0, idx >= oloc0 + size * m_)],
+             z3.Select(m1, idx) == z3.Select(omem0, idx), timeout, "nothing outside the emitted items is written", mf)
+        post(res, f"delta_read_bitpacked{tag}.input_cursor_within_one_byte", q.pc,
+             z3.And(8 * (cy.loc(q, "f") - floc0) >= w * count.iv, 8 * (cy.loc(q, "f") - floc0) < w * count.iv + 8), timeout,
+             "exactly the bytes holding the packed values are consumed (ceil(w * count / 8))", mf)
+    return res
